@@ -765,6 +765,8 @@ func (x *c17Runner) runCase(kind string, in c17Input) {
 		co.add(kind, in.Item.T, in.Item.T == "array" || in.Item.T == "struct" || in.Item.T == "map" || in.Item.T == "int", in, hx(b), fmt.Sprintf("CItemEnc %s %s", in.Item.coq(), impl))
 	case "item_dag":
 		c17ItemDAG(x, in)
+	case "zero":
+		c17ZeroCase(x, in)
 	case "dec":
 		t := c17TypeByName(in.Type)
 		if t == nil {
@@ -1149,6 +1151,11 @@ func c17RunModelled(x *c17Runner, r *rng, cf *commonFlags) {
 		x.runCase("dec", c17Input{Type: pick(r, []string{"tx/bytes", "tx/stream"}), Bytes: hx(b)})
 		_ = i
 	}
+	// zero values of every field of the modelled types: the model decides accept/reject and the bytes
+	for _, name := range []string{"tx/stream", "signer", "witness", "attr", "header", "header/sr", "block", "block/sr", "mptroot", "notification", "appexec",
+		"version", "addr", "addrlist", "inventory", "getblocks", "getblockbyindex", "headers", "ping", "mptinventory", "mptdata", "extensible", "mptnode"} {
+		c17RunZeros(x, name, cf.seed)
+	}
 	// identity through all paths: canonical bytes, then the two non-canonical classes (non-minimal var-int; boolean byte > 1)
 	for i, t := range txs {
 		if i >= n/6+3 {
@@ -1243,6 +1250,7 @@ func c17RunAllTypes(x *c17Runner, r *rng, cf *commonFlags, text bool) {
 			for i := 0; i < max(4, n/40); i++ {
 				x.runCase("roundtrip", c17Input{Type: t.name, Seed: cf.seed, Idx: i})
 			}
+			c17RunZeros(x, t.name, cf.seed) // every field at its zero value, one at a time and all at once
 		}
 		if !text {
 			for _, e := range c17Extremes(t.name) {
